@@ -131,7 +131,7 @@ class FakeFlows:
         torch.set_default_dtype(self._dtype)
 
 
-def make_model(dims, seed, cut=False, uprior=False):
+def make_model(dims, seed, cut=False, uprior=False, lcut=False):
     """2..3-d Gaussian likelihood, uniform prior on a box; with `cut` the prior is zero on part of the box
     (x0 + x1 > 2), i.e. log_prior = -inf inside the bounds — a legal constrained model; with `uprior` the prior is NOT
     flat: density 1 + 0.8 (u0 - 1/2) in the unit hypercube (log_prior_unit_hypercube overridden, as in nessai's
@@ -164,6 +164,11 @@ def make_model(dims, seed, cut=False, uprior=False):
             out = np.zeros(x.size)
             for n, m in zip(self.names, self.mu):
                 out = out - 0.5 * (x[n] - m) ** 2
+            if lcut:
+                # a hard truncation of the LIKELIHOOD (log L = -inf on part of the prior support): legal, and the stored
+                # value must be the model's -inf, not a finite stand-in (seeded change C03-d)
+                with np.errstate(all="ignore"):
+                    out = np.where(x[self.names[0]] < -0.5, -np.inf, out)
             return out
 
         def to_unit_hypercube(self, x):
@@ -206,7 +211,7 @@ def run_fake(cfg, seed, outdir, resume_after=None):
     np.random.seed(seed)
     torch.manual_seed(seed)
     dims = cfg["dims"]
-    model = make_model(dims, seed, cfg.get("cut", False), cfg.get("uprior", False))
+    model = make_model(dims, seed, cfg.get("cut", False), cfg.get("uprior", False), cfg.get("lcut", False))
     snaps = []
     with FakeFlows(dims, cfg["reparam"] == "logit", None) as ff:
         sampler = ImportanceNestedSampler(
@@ -241,7 +246,7 @@ def run_fake(cfg, seed, outdir, resume_after=None):
             del snaps[mid:]
             with open(os.path.join(outdir, "ckpt_mid.pkl"), "rb") as f:
                 sm = pickle.load(f)
-            sampler = ImportanceNestedSampler.resume_from_pickled_sampler(sm, make_model(dims, seed, cfg.get("cut", False), cfg.get("uprior", False)))
+            sampler = ImportanceNestedSampler.resume_from_pickled_sampler(sm, make_model(dims, seed, cfg.get("cut", False), cfg.get("uprior", False), cfg.get("lcut", False)))
             snaps.append(snapshot(sampler, "resumed"))
             np.random.seed(seed + 1)
             torch.manual_seed(seed + 1)
@@ -254,7 +259,7 @@ def run_fake(cfg, seed, outdir, resume_after=None):
             with open(os.path.join(outdir, "ckpt.pkl"), "rb") as f:
                 s2 = pickle.load(f)
             s2.resume_from_pickled_sampler  # noqa (attribute exists)
-            model2 = make_model(dims, seed, cfg.get("cut", False), cfg.get("uprior", False))
+            model2 = make_model(dims, seed, cfg.get("cut", False), cfg.get("uprior", False), cfg.get("lcut", False))
             s2 = ImportanceNestedSampler.resume_from_pickled_sampler(s2, model2)
             snaps.append(snapshot(s2, "resumed"))
         return snaps, level_c, sampler
@@ -434,7 +439,8 @@ def oracle_snapshot(ctx, snap, sampler_model, names, case, level_logq=None, tol=
         if not np.all(np.isfinite(sampler_model.log_prior(phys))):
             ctx.oracle_fail(site + ":prior", f"{name}: a stored sample has zero prior", case)
         ll = sampler_model.log_likelihood(phys)
-        if not np.allclose(ll, recs["logL"], rtol=1e-12, atol=1e-12, equal_nan=True):
+        same_inf = np.array_equal(np.isneginf(ll), np.isneginf(recs["logL"]))
+        if not same_inf or not np.allclose(ll, recs["logL"], rtol=1e-12, atol=1e-12, equal_nan=True):
             ctx.oracle_fail(site + ":logL", f"{name}: stored logL differs from the model at the physical point", case)
         if not np.allclose(recs["logW"], recs["logU"] - recs["logQ"], rtol=tol, atol=tol):
             ctx.oracle_fail(site + ":logW", f"{name}: logW != logU - logQ", case)
@@ -475,6 +481,11 @@ CONFIGS = [
     dict(dims=2, nlive=30, levels=5, strict=True, replace_all=False, draw_constant=True, iid=False, reparam=None, q=0.5, min_samples=10, save_log_q=True, weighted_kl=True),
     dict(dims=2, nlive=40, levels=4, strict=False, replace_all=False, draw_constant=True, iid=True, reparam=None, q=0.5, min_samples=15, save_log_q=True, weighted_kl=True, uprior=True),
     dict(dims=2, nlive=40, levels=3, strict=True, replace_all=False, draw_constant=True, iid=False, reparam="logit", q=0.5, min_samples=15, save_log_q=False, weighted_kl=False, uprior=True, resume_mid=1),
+]
+# likelihood that is -inf on part of the prior support: oracle-only runs (the Rat replay takes likelihood keys as finite numbers)
+LCUT_CONFIGS = [
+    dict(dims=2, nlive=80, levels=3, strict=False, replace_all=False, draw_constant=True, iid=True, reparam="logit", q=0.5, min_samples=20, save_log_q=True, weighted_kl=True, lcut=True),
+    dict(dims=2, nlive=80, levels=3, strict=True, replace_all=False, draw_constant=True, iid=False, reparam=None, q=0.5, min_samples=20, save_log_q=False, weighted_kl=False, lcut=True),
 ]
 
 
@@ -532,7 +543,7 @@ def one_real_run(ctx, cfg, seed):
     case = {"kind": "neural-flow run", "cfg": cfg, "seed": seed}
     snaps = []
     try:
-        model = make_model(cfg["dims"], seed, cfg.get("cut", False), cfg.get("uprior", False))
+        model = make_model(cfg["dims"], seed, cfg.get("cut", False), cfg.get("uprior", False), cfg.get("lcut", False))
         sampler = ImportanceNestedSampler(
             model, nlive=cfg["nlive"], output=tmp, seed=seed, plot=False, checkpointing=False,
             min_samples=cfg["min_samples"], max_iteration=cfg["levels"], min_iteration=cfg["levels"],
@@ -588,7 +599,7 @@ def correspond(ctx):
         for ci, cfg in enumerate(CONFIGS):
             for s in range(nseeds):
                 one_fake_run(ctx, cfg, base + 17 * ci + s + 1, resume=(s % 2 == 0))
-        for ci, cfg in enumerate([CONFIGS[0], CONFIGS[6], CONFIGS[10]] if ctx.quick else CONFIGS):
+        for ci, cfg in enumerate(([CONFIGS[0], CONFIGS[6], CONFIGS[10]] if ctx.quick else CONFIGS) + LCUT_CONFIGS):
             for s in range(ctx.scale(1, 3)):
                 one_real_run(ctx, cfg, base + 300 + 7 * ci + s)
     finally:
